@@ -823,6 +823,66 @@ func ruleC12Diags(c *Checker) {
 		}
 	}
 	c.check(traced, R, name, "finder diagnostics traced", p.Pos(fd.Pos()), "handed to BuildTracer.Diagnostics", "finder diagnostics are no longer reported to the tracer")
+	// diagnostics produced by the callbacks handed to the finder (resolution errors) reach the result too
+	resultCell := func(al *ssa.Alloc) bool {
+		for _, r := range returnsOf(host) {
+			for _, rv := range r.Results {
+				if ld, ok := rv.(*ssa.UnOp); ok && ld.X == ssa.Value(al) {
+					return true
+				}
+			}
+		}
+		return false
+	}
+	for _, cf := range host.AnonFuncs {
+		eachInstr(cf, func(in ssa.Instruction) {
+			st, ok := in.(*ssa.Store)
+			if !ok {
+				return
+			}
+			cl, ok := st.Val.(*ssa.Call)
+			if !ok {
+				return
+			}
+			if bi, ok := cl.Call.Value.(*ssa.Builtin); !ok || bi.Name() != "append" || !isDiagnosticsType(cl.Type()) {
+				return
+			}
+			al, ok := rootCell(st.Addr).(*ssa.Alloc)
+			if !ok {
+				c.fail(R, p.FuncName(cf), "callback diagnostics target", p.Pos(st.Pos()), "a callback appends diagnostics to something that is not a variable of the draining function")
+				return
+			}
+			if resultCell(al) {
+				c.pass(R, p.FuncName(cf), "callback diagnostics reach the result", p.Pos(st.Pos()), "appended directly to the returned diagnostics")
+				return
+			}
+			// a side slice: every path from the finder call must pass a direct merge of it
+			// (an append one of whose operands is the side slice itself, not a phi that
+			// contains it on some paths only)
+			isDirectMerge := func(x ssa.Instruction) bool {
+				c2, ok := x.(*ssa.Call)
+				if !ok {
+					return false
+				}
+				bi, ok := c2.Call.Value.(*ssa.Builtin)
+				if !ok || bi.Name() != "append" || !isDiagnosticsType(c2.Type()) {
+					return false
+				}
+				for _, a := range c2.Call.Args {
+					if ld, ok := a.(*ssa.UnOp); ok && ld.Op == token.MUL && rootCell(ld.X) == ssa.Value(al) {
+						return true
+					}
+				}
+				return false
+			}
+			ok2, off2 := mustPassOK(fd, isDirectMerge, nil, nil)
+			pos2 := p.Pos(st.Pos())
+			if off2 != nil {
+				pos2 = p.Pos(off2.Pos())
+			}
+			c.check(ok2, R, p.FuncName(cf), "callback diagnostics reach the result", pos2, "collected separately and merged on every path from the finder call", "error diagnostics raised through the finder's callbacks (an unresolvable relative address) are collected in a side slice that is merged into the result only on some paths: the build can succeed silently without the dependency")
+		})
+	}
 	// wrapper methods
 	for _, m := range []string{"Severity", "Description", "ExtraInfo"} {
 		fn := p.Fn("sourcebundle", "diagnosticInSourcePackage."+m)
@@ -925,3 +985,4 @@ func reachingLoads(st *ssa.Store, cell *ssa.Alloc) []ssa.Value {
 	}
 	return out
 }
+
